@@ -42,7 +42,8 @@ MIN_COUNTERS = {
     "record_compared": {"quick": 400, "thorough": 8000},
     "taint_runs": {"quick": 400, "thorough": 8000},
     "faults_fired": {"quick": 40, "thorough": 400},
-    "control_canary_fired": {"quick": 5, "thorough": 50},
+    "control_canary_fired": {"quick": 5, "thorough": 5},
+    "volume_record_chars": {"quick": 1000000, "thorough": 1000000},
 }
 UNIT_TIMEOUT = 150
 MARK = "VYTAINT"
@@ -168,6 +169,8 @@ def setup_worker():
 def units(tier, seed):
     q = tier == "quick"
     u = [{"kind": "control", "seed": seed}]
+    for i in range(len(VOLUME)):
+        u.append({"kind": "volume", "i": i})
     for i in range(48 if q else 480):
         u.append({"kind": "model", "seed": seed, "idx": i, "n": 60 if q else 100})
     for i in range(24 if q else 240):
@@ -261,6 +264,23 @@ def lit(s):
     return "`" + s.replace("\\", "\\\\").replace("`", "\\`") + "`"
 
 
+# large outputs: the record must take everything, whatever its size (program, inputs, flags, expected record)
+def _volume_cases():
+    line = "x" * 40
+    big = []
+    big.append(("6000(`" + line + "`,)", [], "", (line + "\n") * 6000))
+    big.append(("9000(`" + line + "`₴)", [], "O", line * 9000))
+    big.append(("60000ɾ,", [], "", "⟨ " + " | ".join(str(i) for i in range(1, 60001)) + " ⟩\n"))
+    big.append(("40000ɾ", [], "j", "\n".join(str(i) for i in range(1, 40001)) + "\n"))
+    big.append(("3000(n…_)", [], "O", "".join(f"{i}\n" for i in range(1, 3001))))
+    big.append(("`" + line + "`5000*", [], "", line * 5000 + "\n"))
+    big.append(("4000(`" + line + "`¨,)", [], "O", (line + " ") * 4000))
+    return big
+
+
+VOLUME = _volume_cases()
+
+
 def taint_programs(r):
     p = r.choice(PAYLOADS + STATEMENT_PAYLOADS)
     q = r.choice(PAYLOADS)
@@ -309,6 +329,25 @@ def run_unit(unit):
         res["keys"] += [harness.short_hash(["control", i]) for i in range(8)]
         return res
 
+    if k == "volume":
+        text, inputs, flags, expect = VOLUME[unit["i"]]
+        got = run_online(text, inputs, flags, timeout=60)
+        if got["error"] in ("watchdog", "MemoryError"):
+            res["inconclusive"].append({"why": got["error"], "program": text[:60]})
+            return res
+        observe(got)
+        c["volume_runs"] = c.get("volume_runs", 0) + 1
+        c["volume_record_chars"] = c.get("volume_record_chars", 0) + len((got["record"] or {1: ""})[1])
+        res["keys"].append(harness.short_hash(["volume", unit["i"]]))
+        bad = containment_violations(got, text)
+        rec = got["record"] or {1: "", 2: ""}
+        if rec[1] != expect:
+            n = next((j for j, (a, b) in enumerate(zip(rec[1], expect)) if a != b), min(len(rec[1]), len(expect)))
+            bad.append(("record-differs", f"output record has {len(rec[1])} characters, expected {len(expect)}; first difference at {n}"))
+        for mech, what in bad:
+            add_violation(res, mech, f"program {text[:70]!r}… flags={flags!r}: {what}", dict(unit), program=text[:200])
+        res["samples"].append({"mode": "volume", "program": text[:60], "record_chars": len(rec[1])})
+        return res
     if k == "one":
         cases = [unit]
     else:
